@@ -28,30 +28,28 @@ Qed.
 Lemma source_flagged_iff o : request_done o = VFailed true <-> o = TFailed true \/ o = TOk (MDigest false) \/ o = TOk MMissing.
 Proof. destruct o as [[|[|]|]|[|]]; cbn; split; intros H; try discriminate; try (intuition congruence); auto. Qed.
 
-(* an existing destination file is overwritten (a pull task runs) only if the group state was corrupt (X) at dispatch,
-   or no copy was recorded healthy/suspect AND no file was found on disk by the search *)
+(* an existing destination file is overwritten (a pull task runs) only if the copy on the receiving node itself is recorded corrupt (X),
+   or no copy in the group was recorded healthy/suspect AND no file was found on disk by the search *)
 Lemma no_blind_overwrite gs sa ss sr fod gate ns t o p : chain gs sa ss sr fod gate ns t o = CRan p ->
-  gs = HX \/ (gs = HN /\ fod = false).
+  (gs = HX /\ ns = HX) \/ ((gs = HN \/ gs = HX) /\ fod = false).
 Proof.
-  unfold chain, update_pull, group_search. destruct gs; cbn [is_y is_m is_x has_eqb already_in_group orb]; try discriminate.
-  - destruct (negb sa); [discriminate|]. destruct (src_gone ss); [discriminate|]. destruct (is_m ss); [discriminate|]. destruct (negb sr); [discriminate|]. auto.
-  - destruct (negb sa); [discriminate|]. destruct (src_gone ss); [discriminate|]. destruct (is_m ss); [discriminate|]. destruct (negb sr); [discriminate|].
-    destruct fod; [discriminate|]. auto.
+  unfold chain, update_pull, group_search.
+  destruct gs, sa, ss, sr, fod, gate, ns; cbn; intros H; try discriminate H; auto.
 Qed.
-(* an unregistered file found on disk is marked suspect (to be verified) instead of being overwritten *)
-Lemma stray_file_is_checked_first sa ss sr gate ns t o : chain HN sa ss sr true gate ns t o <> CCancelled ->
-  chain HN sa ss sr true gate ns t o = CSkipped \/ chain HN sa ss sr true gate ns t o = CMarkedSuspect.
+(* an unregistered file found on disk is marked suspect (to be verified) instead of being overwritten, also when some other node of
+   the group holds a corrupt copy *)
+Lemma stray_file_is_checked_first gs sa ss sr gate ns t o : (gs = HN \/ gs = HX) -> ns <> HX -> chain gs sa ss sr true gate ns t o <> CCancelled ->
+  chain gs sa ss sr true gate ns t o = CSkipped \/ chain gs sa ss sr true gate ns t o = CMarkedSuspect.
 Proof.
-  unfold chain, update_pull, group_search. cbn. destruct (negb sa); [auto|]. destruct (src_gone ss); [congruence|]. destruct (is_m ss); [auto|]. destruct (negb sr); auto.
+  unfold chain, update_pull, group_search. intros [->| ->] Hn; destruct sa, ss, sr, gate, ns; cbn; intros H; auto; try (contradiction H; reflexivity); contradiction Hn; reflexivity.
 Qed.
 
 (* a pull runs only from an active source whose copy is healthy and ready, into a group that does not hold the file *)
 Lemma pull_preconditions gs sa ss sr fod gate ns t o p : chain gs sa ss sr fod gate ns t o = CRan p ->
   sa = true /\ ss = HY /\ sr = true /\ gate = true /\ gs <> HY /\ gs <> HM.
 Proof.
-  unfold chain, update_pull, group_search. destruct gs; cbn [is_y is_m is_x has_eqb already_in_group orb]; try discriminate;
-    destruct sa; cbn [negb]; try discriminate; destruct ss; cbn; try discriminate; destruct sr; cbn; try discriminate;
-    try destruct fod; try discriminate; destruct gate; try discriminate; intros _; repeat split; discriminate.
+  unfold chain, update_pull, group_search.
+  destruct gs, sa, ss, sr, fod, gate, ns; cbn; intros H; try discriminate H; repeat split; discriminate.
 Qed.
 
 (* routing: hard links only between nodes that are both archive or both not; remote pulls need a known route and a tool *)
